@@ -149,6 +149,14 @@ pub fn lw_pool(quick: bool) -> Vec<LwSpec> {
     }
     // F12: one packet of 300 fragments (fragment ids beyond 8 bits, acknowledgement flags beyond one 64-bit word, ids 32 / 64 / 256
     // apart in the same packet): any one of the frames of the transfer is lost, data or acknowledgement
+    // (and one packet of exactly 64 and of exactly 128 fragments, no loss needed: bookkeeping words exactly full)
+    for nf in [64usize, 128] {
+        let ops: Vec<Op> = vec![send(0, 0, 0, Reliable, nf * FRAG - 100), send(1, 0, 0, Reliable, 9)];
+        let s = Arc::new(ScriptInfo::new(ops));
+        let mut env = env_live(0, 3);
+        env.fates = &[Fate::Deliver, Fate::Drop]; env.deltas = &[20];
+        v.push(sp(&format!("bulk.one-packet-{}-fragments", nf), &wide, &s, env, if quick { 0 } else { 1 }));
+    }
     for (name, mode) in [("reliable", Reliable), ("persistent", Persistent)] {
         if quick && name == "persistent" { continue; }
         let ops: Vec<Op> = vec![send(0, 0, 0, mode, 299 * FRAG + 77), send(1, 0, 0, Reliable, 9)];
